@@ -550,7 +550,7 @@ class Driver(object):
                 kind, frame = parse_sanitizer(report, self.gen_source)
                 if kind == 'unknown':
                     kind = 'exit:%s' % (signal.Signals(-rc).name if rc < 0 else rc)
-                raise Crash(kind, frame, report[-3000:])
+                raise Crash(kind, frame, report[:4000])
             self.buf += chunk
         line, self.buf = self.buf.split(b'\n', 1)
         return line.decode()
